@@ -69,6 +69,33 @@ def image_size():
     return len(vmmon.LAST_LOAD.get('image') or [])
 
 
+def insert_defines(prog, rng):
+    """value macros nobody uses, defined inside the bodies of branches, loops
+    and routines (also right after a `break`): a definition generates no
+    control transfer, so every branch still leads where it led"""
+    n = [0]
+
+    def walk(stmts, inside):
+        for st in list(stmts):
+            if not isinstance(st, list) or not st:
+                continue
+            if st[0] == 'if':
+                walk(st[2], True)
+                if st[3]:
+                    walk(st[3], True)
+            elif st[0] == 'repeat':
+                walk(st[3], True)
+            elif st[0] == 'routine':
+                walk(st[3], True)
+        if inside:
+            for _ in range(rng.choice([0, 0, 1, 1, 2])):
+                n[0] += 1
+                stmts.insert(rng.randint(0, len(stmts)),
+                             ['define', 'zz_k{}'.format(n[0]), ['num', 5]])
+    walk(prog, False)
+    return n[0]
+
+
 def run_case(ctx, i):
     rng = ctx.rng('c05', i)
     pop = gen.random_population(rng, 5)
@@ -77,6 +104,9 @@ def run_case(ctx, i):
     except gen.TooBig:
         ctx.count('generator_too_big')
         return
+    if rng.random() < 0.3:
+        ctx.count('unused_macros_defined_inside_blocks',
+                  insert_defines(prog, rng))
     text = render.canonical(render.tokens(prog, rng))
     diffrun.setup(pop)
     replay = {'script': text, 'population': pop, 'program': prog}
